@@ -65,6 +65,10 @@ def run_shard(desc):
                 touched = sorted({tuple(it[k]) for it in base for k in ("p", "q")})
                 for g in sorted({touched[0], touched[-1]}):
                     judge_save_load(base + [{"op": "ground", "p": list(g)}], res)
+                # no ground symbol: the reference node is the first terminal of the first symbol drawn, also after reloading
+                # (drawn in the given and in the reverse order, so that first-drawn and alphabetically-first differ)
+                judge_save_load(base, res)
+                judge_save_load(list(reversed(base)), res)
     elif desc[0] == "SK":
         kind, params = persistable_cases()[desc[1]]
         is_src = kind in rdw.VOLTAGE_KINDS or kind in rdw.CURRENT_KINDS
@@ -104,7 +108,8 @@ def circuit_signature(circ):
     """translation up to a renaming of nodes: (components with canonical node numbers, ground number)"""
     ren = {}
     comps = []
-    for c in circ.components:
+    # listing order is not part of the circuit: canonical order by identifier (the ground component, if any, last)
+    for c in sorted(circ.components, key=lambda c: (c.type == "ground", c.id)):
         nodes = []
         for n in c.nodes:
             if n not in ren:
@@ -169,6 +174,12 @@ def judge_save_load(prog, res, w_list=(0.0,)):
                         continue
                     a, b = complex(s0.get_current(c.id)), complex(s1.get_current(c.id))
                     v0, v1 = complex(s0.get_voltage(c.id)), complex(s1.get_voltage(c.id))
+                    c1 = circ[c.id]
+                    for n0, n1 in zip(c.nodes, c1.nodes):
+                        p0, p1 = complex(s0.get_potential(n0)), complex(s1.get_potential(n1))
+                        if abs(p0 - p1) > 1e-9 * max(1, abs(p0)):
+                            add_violation(res, "roundtrip_solution", dict(case, cycle=cycle, w=w), p0, p1, "potential at a terminal of %s changed in save/load cycle %d" % (c.id, cycle))
+                            return
                     if abs(a - b) > 1e-9 * max(1, abs(a)) or abs(v0 - v1) > 1e-9 * max(1, abs(v0)):
                         add_violation(res, "roundtrip_solution", dict(case, cycle=cycle, w=w), [v0, a], [v1, b], "solution of %s changed in save/load cycle %d" % (c.id, cycle))
                         return
